@@ -262,7 +262,8 @@ class ApiGen:
         elif k == 22:
             fmts = ["Sri", "Sma", "SdB", "ri", "ma", "dB", "Zri,Yma", "Zin",
                     "IL,RL,VSWR", "PRC,PRL,SRC,SRL", "Tri", "Hma,Gma", "", "xyz",
-                    "S", "Sri,Sri", "zinri", ",", "SdB,IL"]
+                    "S", "Sri,Sri", "zinri", ",", "SdB,IL", "ZindB", "zindb",
+                    "Sri,ZindB", "PRCma", "ILri", "VSWRdB", "Zinma,Zindb"]
             s.op("vnadata_set_format", v, qs(str(r.choice(fmts))))
             s.op("vnadata_get_format", v)
             if r.random() < 0.4:
